@@ -121,7 +121,7 @@ def actual_items(inst, b, names):
             E = b.ipdom().get(blk)
             hdr = lp["header"]
             for tg, toks in groups.items():
-                role = _arm_role(b, pr, tg, E, hdr)
+                role = _arm_role(b, pr, tg, E, hdr, lp["body"])
                 if role == "follow":
                     follow |= toks
                 elif role == "recovery":
@@ -129,9 +129,7 @@ def actual_items(inst, b, names):
                 elif role == "first":
                     first |= toks
                     # optional: the body arm leaves the loop at its end (no path back to the header before the exit)
-                    back = flow.find_path(b, (tg, -1), lambda p, it: p[0] == hdr and p[1] == 0,
-                                          blocks_point=lambda p, it: p[0] == E and p[1] == 0)
-                    is_opt = back is None
+                    is_opt = tg not in lp["body"]
             out.append((_pos(t), ("opt" if is_opt else "loop", frozenset(first), frozenset(follow)), blk))
             continue
         order = sorted(groups.items(), key=lambda kv: _first_pos(b, kv[0]))
@@ -169,21 +167,26 @@ def _first_call(b, pr, blk, limit=6):
     return None
 
 
-def _arm_role(b, pr, tg, E, hdr):
-    """what an explicit arm of a recovering loop does before it reaches the loop's exit E: nothing (follow: `break`), report and
-    leave (recovery), or parse the body (first)"""
+def _arm_role(b, pr, tg, E, hdr, body=None):
+    """what an explicit arm of a recovering loop does first: nothing but jump to the join behind the loop (follow: `break`), report and
+    leave (recovery), or parse the body (first).  Inside a rule used in an ordered choice the report is preceded by
+    `if in_ordered_choice { return None }`, which is followed along its false edge."""
     x = tg
-    for _ in range(8):
+    headers = {L["header"] for L in b.loops()}
+    real_exit = E is not None and E != -1
+    for _ in range(12):
+        t = b.blocks[x]["t"]
         if x == E:
             return "follow"
-        t = b.blocks[x]["t"]
+        if (x != tg or (body is not None and x not in body)) and len(set(b.pred(x))) >= 2 and x not in headers:
+            # functions that can `return None` have no block that post-dominates the decision: the loop's exit is the first join
+            return "follow"
+        if b.blocks[x]["s"] and any("rv" in st and st["a"]["p"] for st in b.blocks[x]["s"]):
+            break
         if t["t"] == "goto":
             x = t["to"]
             continue
         break
-    if x == E:
-        return "follow"
-    # first call on the way
     seen = set()
     st = [tg]
     while st:
@@ -192,6 +195,12 @@ def _arm_role(b, pr, tg, E, hdr):
             continue
         seen.add(y)
         t = b.blocks[y]["t"]
+        if t["t"] == "switch":
+            e = pr.operand(t["d"])
+            if e[0] == "field" and e[3] == "in_ordered_choice":
+                st.append(t["arms"][0][1] if t["arms"] and t["arms"][0][0] == 0 else t["else"])
+                continue
+            return "first"
         if t["t"] == "call":
             n = pr.call_expr(t)[1]
             if n.endswith("Parser::error"):
@@ -252,14 +261,14 @@ def _fmt(it):
 
 def tval_rule(ctx, rep, rid="TVAL"):
     rep.rule(rid, "TRANSLATION VALIDATION: for every rule function of the analysed grammars that is not left-recursive, contains no predicate or ordered "
-                  "choice and is not used inside an ordered choice, "
+                  "choice, "
                   "the sequence of terminal matches, rule calls and decisions read off the function's MIR (switches on Parser.current in source order) "
                   "equals the sequence the grammar text prescribes, and every decision's token sets equal the sets recomputed from the text with "
                   "textbook first/follow sets: a terminal matches exactly its token, alternation branch i is selected by predict(b_i), a repetition "
                   "or option is entered on first(body) and left on follow(construct). Recovery arms are not compared")
     nrules = 0
     nitems = 0
-    skipped = {"left-recursive rule": 0, "rule contains a predicate or an ordered choice": 0, "rule used inside an ordered choice (returns Option)": 0}
+    skipped = {"left-recursive rule": 0, "rule contains a predicate or an ordered choice": 0}
 
     def has(t, kinds):
         if t is None:
@@ -290,9 +299,6 @@ def tval_rule(ctx, rep, rid="TVAL"):
                 continue
             if has(g.rules[rname], ("pred", "oc")):
                 skipped["rule contains a predicate or an ordered choice"] += 1
-                continue
-            if b.ret_ty().startswith("std::option::Option"):
-                skipped["rule used inside an ordered choice (returns Option)"] += 1
                 continue
             exp = expected_items(g, fs, fo, rname)
             act = [x[1] for x in actual_items(inst, b, names)]
